@@ -26,6 +26,7 @@ type specEnv struct {
 	oldVars map[string]Val // values of names in the pre-state (nil: same as vars)
 	acc     *[]access      // element reads recorded while evaluating a quantifier body
 	qvars   []string       // bound variables of enclosing quantifiers
+	callee  bool           // evaluating a callee's contract at a call site (its internal iterations are not visible)
 }
 
 // finiteQ maps a generated quantified formula to a finite conjunction of instances;
@@ -767,6 +768,10 @@ func (e *specEnv) call(n *ast.CallExpr) Val {
 			v := e.eval(n.Args[0])
 			oldTop := e.t.top(e.old)
 			return Val{tBool, []string{and(lt(oldTop, v.C[0]), le(v.C[0], e.t.top(e.cur)))}}
+		case "live":
+			// live(r): the reference has been allocated by now (it is at most the current allocation mark)
+			v := e.eval(n.Args[0])
+			return Val{tBool, []string{le(v.C[0], e.t.top(e.cur))}}
 		case "allocated":
 			// the reference existed in the pre-state
 			v := e.eval(n.Args[0])
@@ -1085,6 +1090,82 @@ func (e *specEnv) call(n *ast.CallExpr) Val {
 				r = v.C[1]
 			}
 			return Val{tInt, []string{r}}
+		case "visited":
+			// visited(k): key k has already been produced by the function's (single) iteration over a map
+			if e.callee {
+				return Val{tBool, []string{"true"}}
+			}
+			if nr := e.t.countMapRanges(); nr != 1 {
+				e.errorf("visited: the function must contain exactly one range over a map (has %d)", nr)
+				return Val{tBool, []string{"true"}}
+			}
+			if len(e.t.iters) == 0 {
+				return Val{tBool, []string{"false"}}
+			}
+			kv := e.eval(n.Args[0])
+			for _, it := range e.t.iters {
+				return Val{tBool, []string{sel(e.t.heapGet(e.cur, it.heap, "(Array Int Bool)"), e.t.mapKey(kv))}}
+			}
+		case "allvisited":
+			// allvisited(): every key of the map being iterated (key set at the range statement) has been produced
+			if e.callee {
+				return Val{tBool, []string{"true"}} // a fact about the callee's own loop: nothing for the caller
+			}
+			if nr := e.t.countMapRanges(); nr != 1 {
+				e.errorf("allvisited: the function must contain exactly one range over a map (has %d)", nr)
+				return Val{tBool, []string{"true"}}
+			}
+			if len(e.t.iters) == 0 {
+				// evaluated at a point the iteration cannot have reached yet: nothing has been visited
+				return Val{tBool, []string{"false"}}
+			}
+			for _, it := range e.t.iters {
+				e.t.nfr++
+				bv := q(fmt.Sprintf("av!q%d", e.t.nfr))
+				vis := e.t.heapGet(e.cur, it.heap, "(Array Int Bool)")
+				return Val{tBool, []string{or(eq(it.m, "0"), fmt.Sprintf("(forall ((%s Int)) (! %s :pattern ((select %s %s)) :pattern ((select %s %s))))", bv, imp(sel(it.dom0, bv), sel(vis, bv)), it.dom0, bv, vis, bv))}}
+			}
+		case "allobjs":
+			// allobjs(T, "marker", func(x *T) bool {...}): the body holds for every object of struct type T whose ghost field <marker> is 1
+			// (a type invariant; established by T's constructors, preserved by everything under contract)
+			T := e.typeExpr(n.Args[0])
+			if len(n.Args) != 3 {
+				e.errorf("allobjs(T, \"marker\", func(x *T) bool {...})")
+				return Val{tBool, []string{"true"}}
+			}
+			mk, okm := n.Args[1].(*ast.BasicLit)
+			fl, ok2 := n.Args[2].(*ast.FuncLit)
+			if T == nil || !isStruct(T) || !okm || !ok2 || len(fl.Type.Params.List) != 1 || len(fl.Type.Params.List[0].Names) != 1 {
+				e.errorf("allobjs(T, \"marker\", func(x *T) bool {...})")
+				return Val{tBool, []string{"true"}}
+			}
+			// the objects concerned are those whose ghost field <marker> is 1 (set by T's constructor only: ghost
+			// fields are frame-checked), so objects other functions allocate are not constrained
+			mh := "GF." + strings.Trim(mk.Value, "\"")
+			e.t.eng.heapSort[mh] = "(Array Int Int)"
+			xn := fl.Type.Params.List[0].Names[0].Name
+			e.t.nfr++
+			br := q(fmt.Sprintf("o!q%d", e.t.nfr))
+			sx, hx := e.vars[xn]
+			e.vars[xn] = Val{types.NewPointer(T), []string{br}}
+			e.qvars = append(e.qvars, br)
+			body := e.funcBody(fl.Body)
+			e.qvars = e.qvars[:len(e.qvars)-1]
+			if hx {
+				e.vars[xn] = sx
+			} else {
+				delete(e.vars, xn)
+			}
+			var l location
+			e.t.collectStructHeaps(T, &l)
+			var pats []string
+			for i, hn := range l.heaps {
+				pats = append(pats, ":pattern ("+sel(e.t.heapGet(e.cur, hn, l.sorts[i]), br)+")")
+			}
+			msel := sel(e.t.heapGet(e.cur, mh, "(Array Int Int)"), br)
+			pats = append(pats, ":pattern ("+msel+")")
+			return Val{tBool, []string{fmt.Sprintf("(forall ((%s Int)) (! %s %s))", br,
+				imp(eq(msel, "1"), body.C[0]), strings.Join(pats, " "))}}
 		case "emptymap":
 			// emptymap(m): the map m has no entries
 			mv := e.eval(n.Args[0])
